@@ -15,7 +15,8 @@ pub fn model(tier: Tier, world: &str) -> Hist {
     alpha.receivership = true;
     alpha.tokenless = true;
     alpha.vault_swaps = true;
-    alpha.flash_wrap = true;
+    // (quick depth only: at the thorough depth the doubled alphabet does not fit the time budget)
+    alpha.flash_wrap = tier == Tier::Quick;
     if tier == Tier::Thorough {
         alpha.rich_amounts = true;
         alpha.max_clock_devs = 2;
